@@ -81,6 +81,22 @@ def check_k0(case, ctx):
         ctx.close('preload', K2 - K, KG, 1e-9, bucket=name + '.preload', scale=sc)
         ctx.close('preload.ref', K2 - K, KGref, 1e-9, bucket=name + '.preload', scale=sc)
         ctx.label('preload')
+        # the same on the numerically integrated route (calc_k0 given a state - here the undeformed one - or the laminate explicitly):
+        # the matrices with and without the pre-load, integrated on the same grid, differ by the same initial-stress matrix
+        route = case.get('num_route', 'none')
+        if route != 'none' and not y and case['model'] in ('plate', 'cpanel'):
+            nq = max(pd.m, pd.n, 4) + 2
+            kw = dict(c=np.zeros(size)) if route == 'c' else dict(Fnxny=np.ascontiguousarray(F))
+            pn0 = pkg.make_panel(case)
+            pn1 = pkg.make_panel(case)
+            pn1.Nxx_cte, pn1.Nyy_cte, pn1.Nxy_cte = Nc
+            if case.get('force_ortho'):
+                pn0.force_orthotropic_laminate = pn1.force_orthotropic_laminate = True
+            with package('k0.preload.numeric'):
+                Kn0 = dense(pn0.calc_k0(size=size, row0=row0, col0=row0, silent=True, nx=nq, ny=nq, **kw))
+                Kn1 = dense(pn1.calc_k0(size=size, row0=row0, col0=row0, silent=True, nx=nq, ny=nq, **kw))
+            ctx.close('preload.numeric-route', Kn1 - Kn0, KGref, 1e-9, bucket=name + '.preload', scale=max(sc, np.max(np.abs(Kn0))))
+            ctx.label('preload-numeric-route:' + route)
 
     # sub-intervals that tile the width add up to the full-width matrix
     cuts = case.get('tiling')
@@ -232,6 +248,7 @@ def _strategy(draw, tier='quick'):
         case['N_cte'] = v
     else:
         case['N_cte'] = None
+    case['num_route'] = draw(st.sampled_from(['none', 'c', 'Fnxny']))
     return case
 
 
